@@ -6,7 +6,9 @@
 // (no value, 0, +-1, -5, 7, int32 min/max and +-1, 2^32-1, 2^32, +-2^63, 2^64-1 — the last two replaced by
 // int64-representable neighbours on the direct path) x names {a, b, c}, for enumeration and
 // for bits, (1) directly through Set/SetNext and (2) through YANG text, Modules.Parse and
-// Modules.Process reading Entry.Type.Enum/Bit; odd argument spellings (base prefixes, leading
+// Modules.Process reading Entry.Type.Enum/Bit — each text case under four histories of the Modules value
+// (Process once; twice; ToEntry before Process; Process, load an unrelated module, Process), the result taken
+// after every run, so that memoised tables or errors of an earlier run cannot hide a rejection; odd argument spellings (base prefixes, leading
 // zeros, underscores, white space, junk) on the text path; seeded random longer sequences.
 package main
 
@@ -30,7 +32,18 @@ type tcase struct {
 	Path  string   `json:"path"`
 	Names []string `json:"names"`
 	Vals  []string `json:"vals"`
+	// text path only.  Hist: the history the Modules value goes through, the result is taken after EVERY run:
+	//   "" / "a"  Parse, Process
+	//   "b"       Parse, Process, Process
+	//   "c"       Parse, ToEntry(module) (a read before the run), Process
+	//   "d"       Parse, Process, Parse of an unrelated module, Process
+	// Form: "" the type is written in a leaf; "typedef": in a typedef that a leaf uses (when there are
+	// errors only the errors are compared: the leaf then has no resolved type).
+	Hist string `json:"hist,omitempty"`
+	Form string `json:"form,omitempty"`
 }
+
+func (c tcase) key() string { return c.req() + " " + c.Hist + " " + c.Form }
 
 func (c tcase) req() string {
 	var sb strings.Builder
@@ -152,7 +165,11 @@ func yangText(c tcase) string {
 	if c.Kind == "b" {
 		tn, mk, vk = "bits", "bit", "position"
 	}
-	sb.WriteString("module m { namespace \"urn:m\"; prefix m;\n leaf l { type " + tn + " {\n")
+	if c.Form == "typedef" {
+		sb.WriteString("module m { namespace \"urn:m\"; prefix m;\n typedef t { type " + tn + " {\n")
+	} else {
+		sb.WriteString("module m { namespace \"urn:m\"; prefix m;\n leaf l { type " + tn + " {\n")
+	}
 	for i := range c.Names {
 		if c.Vals[i] == "nil" {
 			sb.WriteString(mk + " " + c.Names[i] + ";\n")
@@ -161,7 +178,11 @@ func yangText(c tcase) string {
 			sb.WriteString(mk + " " + c.Names[i] + " { " + vk + " " + quoteYang(raw) + "; }\n")
 		}
 	}
-	sb.WriteString(" } } }\n")
+	if c.Form == "typedef" {
+		sb.WriteString(" } }\n leaf l { type t; } }\n")
+	} else {
+		sb.WriteString(" } } }\n")
+	}
 	return sb.String()
 }
 
@@ -199,8 +220,53 @@ func runGo(c tcase) (out string) {
 	if err := ms.Parse(yangText(c), "m.yang"); err != nil {
 		return "parse-error: " + err.Error()
 	}
+	var dumps []string
+	look := func(raw []error) {
+		errs := classify(c, raw)
+		ent := yang.ToEntry(ms.Modules["m"])
+		l := ent.Dir["l"]
+		var e *yang.EnumType
+		if l != nil && l.Type != nil {
+			e = l.Type.Enum
+			if c.Kind == "b" {
+				e = l.Type.Bit
+			}
+		}
+		dumps = append(dumps, project(c, dump(e, errs)))
+	}
+	switch c.Hist {
+	case "", "a":
+		look(ms.Process())
+	case "b":
+		look(ms.Process())
+		look(ms.Process())
+	case "c":
+		look(yang.ToEntry(ms.Modules["m"]).GetErrors())
+		look(ms.Process())
+	case "d":
+		look(ms.Process())
+		if err := ms.Parse("module o { namespace \"urn:o\"; prefix o; leaf x { type string; } }", "o.yang"); err != nil {
+			return "parse-error: " + err.Error()
+		}
+		look(ms.Process())
+	default:
+		return "bad-case"
+	}
+	for _, d := range dumps[1:] {
+		if d != dumps[0] {
+			return runsDiffer + strings.Join(dumps, runSep)
+		}
+	}
+	return dumps[0]
+}
+
+const runsDiffer = "runs-differ: "
+const runSep = " || "
+
+// classify maps the errors of one run to "member index:class", in member order.
+func classify(c tcase, raw []error) []string {
 	var errs []string
-	for _, err := range ms.Process() {
+	for _, err := range raw {
 		m := err.Error()
 		// m.yang:LINE:COL: message
 		fs := strings.SplitN(m, ":", 4)
@@ -221,21 +287,35 @@ func runGo(c tcase) (out string) {
 		b, _ := strconv.Atoi(strings.SplitN(errs[j], ":", 2)[0])
 		return a < b
 	})
-	ent := yang.ToEntry(ms.Modules["m"])
-	l := ent.Dir["l"]
-	if l == nil || l.Type == nil {
-		return dump(nil, errs)
+	return errs
+}
+
+// project keeps what is compared: for the typedef form with errors only the errors (the leaf has no
+// resolved type then); everything otherwise.  Applied to the Go answer and to the model's answer.
+func project(c tcase, ans string) string {
+	if c.Form != "typedef" || !strings.HasPrefix(ans, "errs=") {
+		return ans
 	}
-	if c.Kind == "b" {
-		return dump(l.Type.Bit, errs)
+	first := strings.Fields(ans)[0]
+	if first == "errs=" {
+		return ans
 	}
-	return dump(l.Type.Enum, errs)
+	return first
 }
 
 // judge: does the Go answer g satisfy the specification answer s (na | none | ok table)?
 func judge(c tcase, g, s string) (bool, string) {
 	if s == "na" {
 		return true, "outside the claimed literal form"
+	}
+	if strings.HasPrefix(g, runsDiffer) {
+		// every run has to satisfy the specification
+		for i, d := range strings.Split(strings.TrimPrefix(g, runsDiffer), runSep) {
+			if ok, what := judge(c, d, s); !ok {
+				return false, fmt.Sprintf("run %d of history %q: %s", i+1, c.Hist, what)
+			}
+		}
+		return true, "the runs differ, each satisfies the specification"
 	}
 	if !strings.HasPrefix(g, "errs=") {
 		return false, "Go did not produce a result: " + g
@@ -320,6 +400,25 @@ func choices(path string) []choice {
 	return out
 }
 
+// withHistories returns the text case c in every history (leaf form) and, when wanted, in the typedef
+// form under the two histories that process twice.
+func withHistories(c tcase, typedefToo bool) []tcase {
+	var out []tcase
+	for _, h := range []string{"a", "b", "c", "d"} {
+		x := c
+		x.Hist = h
+		out = append(out, x)
+	}
+	if typedefToo {
+		for _, h := range []string{"b", "d"} {
+			x := c
+			x.Hist, x.Form = h, "typedef"
+			out = append(out, x)
+		}
+	}
+	return out
+}
+
 func main() {
 	f := lib.ParseFlags()
 	if f.Replay != "" {
@@ -343,7 +442,12 @@ func main() {
 			var rec func(names, vals []string)
 			rec = func(names, vals []string) {
 				if len(names) > 0 {
-					cases = append(cases, tcase{kind, path, append([]string{}, names...), append([]string{}, vals...)})
+					c := tcase{Kind: kind, Path: path, Names: append([]string{}, names...), Vals: append([]string{}, vals...)}
+					if path == "text" {
+						cases = append(cases, withHistories(c, len(names) <= 2)...)
+					} else {
+						cases = append(cases, c)
+					}
 					enumerated++
 				}
 				if len(names) == lim {
@@ -364,10 +468,10 @@ func main() {
 			if o == "" {
 				h = "-"
 			}
-			cases = append(cases, tcase{kind, "text", []string{"a"}, []string{h}})
+			cases = append(cases, withHistories(tcase{Kind: kind, Path: "text", Names: []string{"a"}, Vals: []string{h}}, true)...)
 			for _, other := range []string{"nil", lib.HexS("16"), lib.HexS("7"), lib.HexS("2147483647")} {
-				cases = append(cases, tcase{kind, "text", []string{"a", "b"}, []string{h, other}},
-					tcase{kind, "text", []string{"a", "b"}, []string{other, h}})
+				cases = append(cases, withHistories(tcase{Kind: kind, Path: "text", Names: []string{"a", "b"}, Vals: []string{h, other}}, true)...)
+				cases = append(cases, withHistories(tcase{Kind: kind, Path: "text", Names: []string{"a", "b"}, Vals: []string{other, h}}, true)...)
 				oddCount += 2
 			}
 			oddCount++
@@ -412,6 +516,12 @@ func main() {
 			}
 			c.Vals = append(c.Vals, v)
 		}
+		if path == "text" {
+			c.Hist = []string{"a", "b", "c", "d"}[r.Intn(4)]
+			if r.Intn(3) == 0 {
+				c.Form = "typedef"
+			}
+		}
 		cases = append(cases, c)
 	}
 
@@ -434,13 +544,17 @@ func main() {
 	distinct := lib.NewDistinct()
 	nontrivial := int64(0)
 	byKey := map[string]int64{}
+	byHist := map[string]int64{}
 	for i, c := range cases {
 		reqs[i] = c.req()
 		specReqs[i] = c.specReq()
-		if distinct.Add(reqs[i]) && len(c.Names) >= 2 {
+		if distinct.Add(c.key()) && len(c.Names) >= 2 {
 			nontrivial++
 		}
 		byKey[c.Kind+"/"+c.Path]++
+		if c.Path == "text" {
+			byHist[c.Hist+"/"+map[string]string{"": "leaf", "typedef": "typedef"}[c.Form]]++
+		}
 	}
 	ans, err := lib.ParBatch(f.Driver, reqs, f.Procs)
 	if err != nil {
@@ -449,6 +563,9 @@ func main() {
 	specAns, err := lib.ParBatch(f.Driver, specReqs, f.Procs)
 	if err != nil {
 		lib.Fatal("driver: %v", err)
+	}
+	for i, c := range cases {
+		ans[i] = project(c, ans[i])
 	}
 	nViol, nHold := 0, 0 // separate caps: violating disagreements are never crowded out by harmless ones
 	accepted, rejected, na := int64(0), int64(0), int64(0)
@@ -497,12 +614,15 @@ func main() {
 	res.Evaluations = int64(len(cases))
 	res.DistinctNontrivial = nontrivial
 	res.Exhaustive = true
-	res.Rule = fmt.Sprintf("complete enumeration of member sequences of length 1..%d (direct Set/SetNext) and 1..3 (YANG text through Parse/Process) over 15 boundary values x names {a, b, c} "+
+	res.Rule = fmt.Sprintf("complete enumeration of member sequences of length 1..%d (direct Set/SetNext) and 1..3 (YANG text) over 15 boundary values x names {a, b, c} "+
 		"(45 choices per member, so duplicate names and three distinct names both occur), for enumeration and for bits; plus %d cases with odd argument spellings on the text path and %d seeded random sequences of length 4..10 over 6 names. "+
-		"Every Go answer (errors as member index + class, Names, Values, NameMap, ValueMap, point lookups) is compared with the compiled model and judged against the RFC 7950 assignment. "+
+		"Every text case goes through four histories of one Modules value - (a) Parse, Process; (b) Parse, Process, Process; (c) Parse, ToEntry(module), Process; (d) Parse, Process, Parse of an unrelated module, Process - "+
+		"and the result is taken after EVERY run (and after the early read in c); sequences up to length 2, the odd spellings and a third of the random ones also with the type in a typedef (histories b, d). "+
+		"Every Go answer (errors as member index + class, Names, Values, NameMap, ValueMap, point lookups) of every run is compared with the compiled model and judged against the RFC 7950 assignment. "+
 		"distinct_nontrivial = distinct cases with at least two members (the assignment rule is about earlier members)", maxLen, oddCount, nRand)
 	res.Distribution["enumerated_sequences"] = enumerated
 	res.Distribution["cases_by_kind_and_path"] = byKey
+	res.Distribution["text_cases_by_history_and_form"] = byHist
 	res.Distribution["spec_accepts"] = accepted
 	res.Distribution["spec_rejects"] = rejected
 	res.Distribution["spec_not_applicable"] = na
@@ -530,6 +650,7 @@ func replay(f *lib.Flags) {
 	defer d.Close()
 	g := runGo(c)
 	m, _ := d.Ask(c.req())
+	m = project(c, m)
 	s, _ := d.Ask(c.specReq())
 	ok, what := judge(c, g, s)
 	v := "holds"
@@ -539,7 +660,7 @@ func replay(f *lib.Flags) {
 	if c.Path == "text" {
 		fmt.Printf("yang:\n%s", yangText(c))
 	}
-	fmt.Printf("input: %s\ngo:    %s\nmodel: %s\nspec:  %s -> %s (%s)\n", c.req(), g, m, s, v, what)
+	fmt.Printf("input: %s  history=%q form=%q\ngo:    %s\nmodel: %s\nspec:  %s -> %s (%s)\n", c.req(), c.Hist, c.Form, g, m, s, v, what)
 	if g != m || !ok {
 		os.Exit(1)
 	}
